@@ -138,6 +138,20 @@ theorem token_pattern_types_exist :
        | some k => (lookS k patternsS).isSome && (lookS k specPatternsS).isSome
        | none => false)).length := by decide +kernel
 
+/-! union types of the regenerated table (font-size, yes-no-number) meet `C05.union_accepts_iff_member` -/
+def isPlainUnion (d : Values.SimpleDef) : Bool :=
+  !d.union.isEmpty && d.forced.isEmpty && !d.isNonNeg && !d.isPositive
+
+theorem isPlainUnion_sound {d : Values.SimpleDef} (h : isPlainUnion d = true) : PlainUnion d := by
+  simp only [isPlainUnion, Bool.and_eq_true, Bool.not_eq_true', List.isEmpty_iff] at h
+  obtain ⟨⟨⟨h1, h2⟩, h3⟩, h4⟩ := h
+  refine ⟨?_, h2, h3, h4⟩
+  intro hn; simp [hn] at h1
+
+theorem union_types_exist :
+    2 ≤ (simpleDefs.filter fun d => isPlainUnion d && d.union.all fun u => (Values.lookupDef u simpleDefs).isSome).length := by
+  decide +kernel
+
 /-- every pattern-carrying class has a schema pattern to be compared with (no pair is skipped) -/
 theorem every_pattern_has_schema : (patternsS.all fun p => (lookS p.1 specPatternsS).isSome) = true := by
   decide +kernel
@@ -160,6 +174,8 @@ end C05
 #print axioms C05.xsDate_is_plain_pattern
 #print axioms C05.isTokenPattern_sound
 #print axioms C05.token_pattern_types_exist
+#print axioms C05.isPlainUnion_sound
+#print axioms C05.union_types_exist
 #print axioms C05.every_pattern_has_schema
 #print axioms C05.every_schema_pattern_is_enforced
 #print axioms C05.pattern_count
